@@ -1,5 +1,5 @@
 """C19 — optional per-user files (config, history, currency table) fail soft."""
-import os, sys, io, math, json, time, shutil, tempfile, subprocess, itertools, unicodedata
+import os, sys, io, math, json, re, time, shutil, tempfile, subprocess, itertools, unicodedata
 from fractions import Fraction
 from concurrent.futures import ThreadPoolExecutor
 import core
@@ -84,6 +84,11 @@ WARN_PREFIX = {"I": "WARNING: expecting integer", "B": "WARNING: expecting boole
                "O": "WARNING: could not open", "R": "WARNING: could not read"}
 
 
+def _nodigits(t):
+    """line numbers and the like do not tell warnings apart"""
+    return re.sub(r"[0-9]+", "#", t)
+
+
 def learn_cfg_warnings(C, tmp):
     """What the three per-line warnings look like is learnt from the code (probe files), so that rewording a message does not
     change which KIND of warning a line is counted as."""
@@ -98,7 +103,7 @@ def learn_cfg_warnings(C, tmp):
         cut = min([lines[0].index(m) for m in marks if m in lines[0]] or [0])
         if cut < 8:
             return
-        learnt[kind] = lines[0][:cut]
+        learnt[kind] = _nodigits(lines[0][:cut])
     if len(set(learnt.values())) == 3 and not any(a != b and a.startswith(b) for a in learnt.values() for b in learnt.values()):
         WARN_PREFIX.update(learnt)
 
@@ -133,7 +138,7 @@ def canon_cfg(cfg, errtext):
         items.append(dots(k) + "=" + t)
     kinds = []
     for line in errtext.split("\n")[:-1]:
-        k_ = next((k for k in "IBUOR" if line.startswith(WARN_PREFIX[k])), None)
+        k_ = next((k for k in "IBUOR" if _nodigits(line).startswith(_nodigits(WARN_PREFIX[k]))), None)
         if k_:
             kinds.append(k_)
         else:
@@ -183,7 +188,8 @@ def gen_config_file(rng, props, big=False):
             bad = rng.choice(INT_BAD if byname[k].num else BOOL_BAD)
             lines.append(k + ws(rng, False) + "=" + bad)
         elif r < 0.72:   # unknown key
-            k = rng.choice(["foo", "Precision", "precision2", "prec ision", "", "pre­cision", "﻿precision", "prompt\x00", "=x"][:8])
+            # (no case variants of real option names: whether `Precision` is the option `precision` is a choice the property leaves open)
+            k = rng.choice(["foo", "qzq-option", "precision2", "prec ision", "", "pre­cision", "﻿precision", "prompt\x00", "=x"][:8])
             lines.append(k + "=" + rng.choice(["1", "true", "x=y", ""]))
         elif r < 0.84:   # no separator
             lines.append(rng.choice(["", "   ", "precision", "precision 3", "# comment", "prompt: x", "\x0b", "[section]", "precision "]))
@@ -279,14 +285,21 @@ def learn_warnings(root):
         lines = [l for l in err.split("\n") if l.strip()]
         if len(lines) < 1 or "Traceback" in err:
             return None
-        cut = min([lines[0].index(m) for m in (home, ":", ".config") if m in lines[0]] or [len(lines[0])])
+        # up to the first ':' / path / quote that comes after a few words (a leading "WARNING:" tag is part of the prefix)
+        cuts = [lines[0].find(m, 12) for m in (home, ".config", "'/", '"/', ":", ",")]
+        cut = min([c for c in cuts if c >= 12] or [len(lines[0])])
         return lines[0][:cut] if cut >= 10 else None
     try:
         home = os.path.join(root, "learn-cur")
         os.makedirs(os.path.join(home, ".config", "ka"))
-        open(os.path.join(home, ".config", "ka", "currency"), "w").write("usd,usdollar,1\nxyz,onlytwo\n")
-        rc, out, err = run_py(home, ["-m", "ka.cli", "1+1"])
+        open(os.path.join(home, ".config", "ka", "currency"), "w").write("usd,usdollar,1\nxyz,xyzname,notanumber\n")
+        rc, out, err = run_py(home, ["-m", "ka.cli", "1 m"])
         pc = first_line_prefix(err, home) if rc == 0 else None
+        home = os.path.join(root, "learn-cur2")
+        os.makedirs(os.path.join(home, ".config", "ka", "currency"))           # a directory in place of the table
+        rc, out, err = run_py(home, ["-m", "ka.cli", "1 m"])
+        pc2 = first_line_prefix(err, home) if rc == 0 else None
+        shutil.rmtree(home, ignore_errors=True)
         home = os.path.join(root, "learn-hist")
         os.makedirs(os.path.join(home, ".config", "ka", "history"))
         rc, out, err = run_py(home, ["-m", "ka.cli"], stdin=b"1+1\n%q\n")
@@ -295,7 +308,7 @@ def learn_warnings(root):
         if rc == 0 and len(lines) == 2 and "Traceback" not in err:
             pl, ps = (first_line_prefix(l, home) for l in lines)
         if pc and pl and ps and len({pc, pl, ps}) == 3:
-            MSG.update(currency=pc, load=pl, save=ps)
+            MSG.update(currency=tuple(sorted({pc, pc2 or pc})), load=pl, save=ps)
     except Exception:  # noqa: keep the documented wording
         pass
     finally:
@@ -545,7 +558,13 @@ def _check(ctx, rng, R, C, CU, tmp):
         if len(data) < 200:
             ctx.sample(dict(read_config=repr(data), result=real))
         cases.append(("cfg " + hexs(data), real, repr(data[:120])))
-    ctx.correspond("cfg", cases)
+    def agree_cfg(real, model, info):
+        # the SETTINGS that take effect are compared exactly; which lines are warned about is compared only in so far as a line that
+        # is a setting in one is a setting in the other (whether `#…` or an unknown key earns a warning is not a claim of the property)
+        if real == model:
+            return True
+        return "|" in real and "|" in model and real.split("|")[0] == model.split("|")[0]
+    ctx.correspond("cfg", cases, agree=agree_cfg)
 
     # ------------------------------------------------------------------ (a2) parse_currency_data
     cases = []
@@ -635,7 +654,7 @@ def _check(ctx, rng, R, C, CU, tmp):
         specials.append((mk, home))
     drates = default_rates(CU)
     learn_warnings(root)
-    ctx.cov["warning_prefixes"] = dict(MSG)
+    ctx.cov["warning_prefixes"] = {k: (list(v) if isinstance(v, tuple) else v) for k, v in MSG.items()}
     def run_job(j):
         home = j["home"]
         j["one"] = run_py(home, ["-m", "ka.cli", "{7 usd to eur, pi}"])
